@@ -55,9 +55,9 @@ def numFloatOK (s : Str) : Bool :=
   let ip := u.takeWhile Char.isDigit
   !ip.isEmpty && fracExpOK (u.dropWhile Char.isDigit)
 
-def nanTok : Str := "NaN".toList
-def infTok : Str := "Infinity".toList
-def negInfTok : Str := "-Infinity".toList
+def nanTok : Str := ['N', 'a', 'N']
+def infTok : Str := ['I', 'n', 'f', 'i', 'n', 'i', 't', 'y']
+def negInfTok : Str := ['-', 'I', 'n', 'f', 'i', 'n', 'i', 't', 'y']
 
 def floatTokOK (s : Str) : Bool :=
   s = nanTok || s = infTok || s = negInfTok || (s.all isNumChar && !isIntShaped s && numFloatOK s)
